@@ -13,6 +13,7 @@ from __future__ import annotations
 
 import os
 import re
+import threading
 from copy import deepcopy
 from typing import Any, List, Type
 
@@ -1789,6 +1790,7 @@ class DiameterRequest(DiameterMessage):
 
     hop_by_hop_identifiers = list()
     end_to_end_identifiers = list()
+    identifiers_lock = threading.Lock()
 
     def __init__(self,
                  version: Any = DIAMETER_VERSION,
@@ -1821,18 +1823,20 @@ class DiameterRequest(DiameterMessage):
         """Sets the Hop-by-Hop Identifier field in Diameter Header"""
         while True:
             random_identifier = os.urandom(4)
-            if random_identifier not in DiameterRequest.hop_by_hop_identifiers:
-                DiameterRequest.hop_by_hop_identifiers.append(random_identifier)
-                return random_identifier
+            with DiameterRequest.identifiers_lock:
+                if random_identifier not in DiameterRequest.hop_by_hop_identifiers:
+                    DiameterRequest.hop_by_hop_identifiers.append(random_identifier)
+                    return random_identifier
 
 
     def __set_end_to_end_identifier(self) -> None:
         """Sets the End-to-End Identifier field in Diameter Header"""
         while True:
             random_identifier = os.urandom(4)
-            if random_identifier not in DiameterRequest.end_to_end_identifiers:
-                DiameterRequest.end_to_end_identifiers.append(random_identifier)
-                return random_identifier
+            with DiameterRequest.identifiers_lock:
+                if random_identifier not in DiameterRequest.end_to_end_identifiers:
+                    DiameterRequest.end_to_end_identifiers.append(random_identifier)
+                    return random_identifier
 
 
     @staticmethod
